@@ -631,6 +631,39 @@ func main() {
 			os.RemoveAll(ip.dir)
 		}
 	}
+	// persistence: K failed attempts on one connection (counters, lock-outs and what they leave behind), then what a
+	// peer without the code can still send, and what a peer with the code sends
+	repeats := []int{3, 100}
+	fails := []string{"A-missing", "wrong-proof", "A=0"}
+	if r.Thorough() {
+		repeats = []int{3, 10, 99, 100, 101, 255, 256, 300}
+		fails = []string{"A-missing", "wrong-proof", "A=0", "A=N", "proof-missing", "A-missing+proof-over-empty-key"}
+	}
+	tails := [][]symbol{
+		{{"exchange", "zero-key"}},
+		{{"start", ""}, {"exchange", "hkdf-of-empty-secret"}},
+		{{"start", ""}, {"verify", "FAIL"}, {"exchange", "zero-key"}},
+		{{"start", ""}, {"verify", "FAIL"}, {"exchange", "hkdf-of-empty-secret"}},
+		{{"start", ""}, {"verify", "right"}, {"exchange", "genuine"}},
+	}
+	for _, k := range repeats {
+		for _, f := range fails {
+			for _, tail := range tails {
+				var seq []symbol
+				for i := 0; i < k; i++ {
+					seq = append(seq, symbol{"start", ""}, symbol{"verify", f})
+				}
+				for _, t := range tail {
+					if t.Var == "FAIL" {
+						t.Var = f
+					}
+					seq = append(seq, t)
+				}
+				inprocDo(seq, 1)
+				r.Count("persistence_histories", 1)
+			}
+		}
+	}
 	n := r.Pick(300, 5000)
 	for i := 0; i < n; i++ {
 		k := 3 + rnd.Intn(6)
